@@ -253,14 +253,17 @@ def corpus_cases():
 
 
 SMALL_CONFIGS = [
-    # (progs, prefix schedule, name)   exhaustive: every interleaving after the prefix
-    ([[[1], [1]], [[0, 1, 0, []]], [[0, 2, 0, []]]], [], "2 submitters x 1 unregistered, loop dispatches twice"),
-    ([[[2, 1], [1], [1]], [[0, 1, 0, [1]]], [[0, 2, 0, [1]]]], [0, 0, 0], "2 submitters x 1 registered"),
-    ([[[3, 1, 0, []], [1], [4]], [[0, 2, 0, []]]], [0] * 20, "open done; dispatch, close vs 1 submission (F10 scope)"),
-    ([[[2, 1], [3, 9, 0, []], [4], [1]], [[0, 1, 0, [1]], [0, 2, 0, [1]]]], [0, 0, 0], "open+close vs 2 signals of one thread, registered at level 0"),
-    ([[[3, 9, 0, []], [2, 1], [1], [4]], [[0, 1, 0, [1]]], [[0, 2, 0, []]]], [0] * 20, "register in nested level racing with routing; close"),
-    ([[[1], [5]], [[0, 1, 0, []]], [[0, 2, 0, []]]], [], "force_quit vs 2 submitters"),
-    ([[[1], [1]], [[0, 1, 0, []], [0, 2, 0, []]], [[0, 3, -5, []]]], [], "2 signals of one thread + 1 of another"),
+    # (progs, prefix schedule, name, in quick tier)   exhaustive: every stutter-free interleaving after the prefix
+    ([[[1], [1]], [[0, 1, 0, []], [0, 2, 0, []]]], [], "2 signals of one thread, loop dispatches twice", True),
+    ([[[2, 1], [1], [1]], [[0, 1, 0, [1]]], [[0, 2, 0, [1]]]], [0, 0, 0], "2 submitters x 1 registered signal, loop dispatches twice", True),
+    ([[[3, 1, 0, []], [1], [4]], [[0, 2, 0, []]]], [0] * 20, "level open; loop {dispatch, close} vs 1 unregistered submission (F10 scope)", True),
+    ([[[1], [1]], [[0, 1, 0, []]], [[0, 2, 0, []]]], [], "2 submitters x 1 unregistered signal, loop dispatches twice", False),
+    ([[[2, 1], [3, 9, 0, []], [4], [1]], [[0, 1, 0, [1]], [0, 2, 0, [1]]]], [0] * 23,
+     "level open; loop {close, dispatch} vs 2 signals of one thread registered at level 0", False),
+    ([[[2, 1], [1]], [[0, 1, 0, [1]]], [[0, 2, 0, [1]]], [[0, 3, 0, [1]]]], [0, 0, 0], "3 submitters x 1 registered signal", False),
+    ([[[3, 9, 0, []], [2, 1], [4]], [[0, 1, 0, [1]]]], [0] * 20, "register in the nested level racing with the routing loop; close", False),
+    ([[[5]], [[0, 1, 0, []]], [[0, 2, 0, []]]], [], "force_quit vs 2 submitters", False),
+    ([[[3, 9, 0, []], [1], [4]], [[0, 1, 0, []]]], [], "loop {open, dispatch, close} vs 1 submission", False),
 ]
 
 
@@ -332,23 +335,24 @@ def run(chk, tier):
         # no-close / no-quit programs: the full "nothing lost" statement must hold
         rnd = [gen_case(chk.rng, allow_close=False, allow_quit=False) for _ in range(150 if tier == "quick" else 1500)]
         run_batch(chk, pool, rnd, "random-no-close")
-        # exhaustive enumeration of small configurations
-        budget = 12 if tier == "quick" else 600
-        cap = 400 if tier == "quick" else 40000
+        # exhaustive enumeration of small configurations (Drv_concx: every maximal stutter-free schedule)
+        budget = 15 if tier == "quick" else 600
+        cap = 5000 if tier == "quick" else 60000
         tex = time.time()
         enumerated = {}
-        for progs, pre, name in SMALL_CONFIGS:
+        for progs, pre, name, in_quick in SMALL_CONFIGS:
+            if tier == "quick" and not in_quick:
+                continue
             if time.time() - tex > budget:
                 chk.notes.append("exhaustive: time budget reached before '%s'" % name)
                 break
-            scheds = lib.model_run("concx", [[progs, pre, 80, cap]], timeout=900)[0]
+            scheds = lib.model_run("concx", [[progs, pre, 90, cap]], timeout=900)[0]
             complete = len(scheds) < cap
-            if not complete and tier == "thorough":
-                chk.notes.append("exhaustive '%s': capped at %d interleavings" % (name, cap))
-            step = 1
-            if tier == "quick":
-                step = max(1, len(scheds) // 60)
-            sel = scheds[::step]
+            if not complete:
+                chk.notes.append("exhaustive '%s': capped at %d interleavings (depth-first prefix)" % (name, cap))
+            sel = scheds
+            if tier == "quick" and len(scheds) > 500:
+                sel = chk.rng.sample(scheds, 250)
             done = 0
             for i in range(0, len(sel), 500):
                 if time.time() - tex > budget:
